@@ -6,6 +6,7 @@ package main
 
 import (
 	"fmt"
+	"net"
 	"os"
 	"strings"
 
@@ -36,6 +37,8 @@ type stdSvc struct {
 	model  *mModel
 	uas    []*labEP // UDP user agents (.10-.13:5060)
 	uas2   []*labEP // same addresses, port 6010
+	uas3   []*labEP // same addresses, a port beyond 32767 (s.high)
+	high   int
 	eps    []*labEP // every harness endpoint
 	tcpUA  map[string]*labTCPConn
 	seq    int
@@ -154,6 +157,35 @@ func newStdSvc(v stdVariant) (*stdSvc, error) {
 		s.uas2 = append(s.uas2, add(in.hub.udpEP(fmt.Sprintf("ua%d'", i), ip(10+i), 6010)))
 		add(in.hub.tcpEP(fmt.Sprintf("ua%d-tcp", i), ip(10+i), 5060))
 		add(in.hub.tcpEP(fmt.Sprintf("ua%d'-tcp", i), ip(10+i), 6010))
+	}
+	// a third socket per user agent at one port beyond 32767 (what a NAT or an
+	// ephemeral source port looks like): the first candidate free on all four
+	// addresses (another process may hold a wildcard socket on a candidate)
+	for _, cand := range []int{51733, 40123, 49152, 60123, 65535, 33333, 47011, 58999} {
+		free := true
+		for i := 0; i < 4 && free; i++ {
+			if c, err := net.ListenUDP("udp", &net.UDPAddr{IP: net.ParseIP(ip(10 + i)), Port: cand}); err != nil {
+				free = false
+			} else {
+				c.Close()
+			}
+			if l, err := net.Listen("tcp", fmt.Sprintf("%s:%d", ip(10+i), cand)); err != nil {
+				free = false
+			} else {
+				l.Close()
+			}
+		}
+		if free {
+			s.high = cand
+			break
+		}
+	}
+	if s.high == 0 {
+		return nil, fmt.Errorf("no free port beyond 32767 on the user agent addresses")
+	}
+	for i := 0; i < 4; i++ {
+		s.uas3 = append(s.uas3, add(in.hub.udpEP(fmt.Sprintf("ua%d^", i), ip(10+i), s.high)))
+		add(in.hub.tcpEP(fmt.Sprintf("ua%d^-tcp", i), ip(10+i), s.high))
 	}
 	for _, d := range []int{20, 21, 22, 24, 25, 60, 99} {
 		for _, p := range []int{5060, 5070, 5061} {
